@@ -46,8 +46,8 @@ Definition tref_eqb (a b : tref) : bool :=
 Definition to_ref (st : kstyle) (p : profile) (k : N) : tref :=
   match st with
   | DidKey => match p with PIndy => TB58 k | _ => TDidKey k end
-  | RawKey => TB58 k
   | DidDoc | DidDocMulti => TDoc k
+  | _ => TB58 k        (* raw (base58) key strings *)
   end.
 
 (* FAsIs: packForward re-serializes the wrapped envelope through model.Envelope {protected, iv, ciphertext, tag}
